@@ -168,7 +168,7 @@ def run_lattice(spec, rec, clauses):
     rec.space(name, spec["total"], done)
 
 
-def gen(rng, kind, tier):
+def gen(rng, kind, tier, *, repeated_stamps=True):
     for _ in range(20):
         if kind == "random":
             h = tracking.random_history(rng)
@@ -180,7 +180,7 @@ def gen(rng, kind, tier):
             h = tracking.adversarial_history(rng)
         if not tracking.has_knife_edge(h):
             n = len(h["times"])
-            if kind in ("random", "overlapping") and n >= 2 and rng.random() < 0.08:
+            if repeated_stamps and kind in ("random", "overlapping") and n >= 2 and rng.random() < 0.08:
                 # time courses in which a stamp occurs twice: the final state recorded by the regular interrupt and
                 # again at the end of the run, or the data of a restarted run appended to the first one
                 ts = list(h["times"])
